@@ -45,6 +45,8 @@ ACTIVITIES = {
     # the initiator keeps sending large frames to this worker (see main): whenever it disappears, a frame is in flight
     # (the consumer is slower than the sender, so the sender sits blocked in the middle of a frame nearly all the time:
     # a writer that never has to wait is only killed between two write calls, i.e. between frames)
+    # thousands of small items that nobody reads pile up in the worker while its execution is busy elsewhere
+    "unread_backlog": "import time\nchannel.send('started')\ntime.sleep(100000)\n",
     "inbound_flood": "import time\nchannel.setcallback(lambda item: time.sleep(0.02))\nchannel.send('started')\ntime.sleep(100000)\n",
     # killed (by the initiator, below) while a helper process it started still holds its output pipe: whoever relays
     # for this worker sees no end of stream
@@ -97,6 +99,11 @@ def main():
             s = "popen"
         elif spec == "python":
             s = f"popen//python={sys.executable}"
+        elif spec.startswith("py3"):
+            # another supported interpreter than the initiating side's (the shipped source runs there)
+            import glob
+
+            s = "popen//python=" + sorted(glob.glob(f"/root/.pyenv/versions/{spec[2:]}.*/bin/python"))[-1]
         elif spec == "via":
             s = f"popen//via={g['master']}"
         elif spec == "socket":
@@ -129,6 +136,9 @@ def main():
                     chans.append(gws[g["id"]].remote_exec("channel.send(1)"))
                 except Exception as e:  # noqa
                     emit(event="note", msg=f"remote_exec on exhausted worker: {e!r}")
+            if act == "unread_backlog":
+                for i in range(6000):
+                    ch.send(i)
             if act == "inbound_flood":
                 import threading
 
